@@ -423,4 +423,62 @@ def gen_decode(fam, tier, rng, n_docs=None):
     # positional array form (error family accepts it; flattened structs do not)
     for arr in (["invalid_grant"], ["invalid_grant", "d"], ["invalid_grant", None, "u"], ["a", "b", "c", "d"], [], [1], ["x", 1]):
         out.append((decode_line(dfam, False, render(arr, rng, plain=True)), "positional-array"))
+    out += source_literal_docs(dfam, efam, bm, known, required, rng)
+    return out
+
+
+def source_literal_docs(dfam, efam, bm, known, required, rng):
+    """documents built from the literals that are new in the source (gen/srclit.py): each new word as a member name (beside
+    the known members, instead of each optional one, with values of several types, for both extension modes), as the value
+    of every string member, as a scope token and as a token type / error code; each new integer (and its neighbours) as the
+    value of every numeric member, as the length of every string member and as the size of the whole document.  Empty on the
+    unchanged tree."""
+    from gen import srclit as S
+    out = []
+    words = S.words()
+    modes = [False] + (["M"] if efam != "error" else [])
+    str_members = [k for k, v in bm if isinstance(v, str) and k not in ("verification_uri", "verification_uri_complete")]
+    num_members = [k for k, v in bm if isinstance(v, int) and not isinstance(v, bool)]
+    for w in words:
+        spell = [w] if w in known else list(dict.fromkeys([w, w.lower(), w.replace("-", "_")]))
+        for name in spell:
+            if name in known:
+                continue
+            for val in ("literal-value", 7, None, True, ["x"], obj([("k", "v")]), ""):
+                for mode in modes:
+                    out.append((decode_line(dfam, mode, render(obj(shuffled(bm + [(name, val)], rng)), rng, plain=True)), "source-literal/member-beside"))
+            reduced = [(k, v) for k, v in bm if k in required]
+            for val in ("literal-value", 7):
+                out.append((decode_line(dfam, False, render(obj(reduced + [(name, val)]), rng, plain=True)), "source-literal/member-instead"))
+            # ... and next to each single optional member left out
+            for k, _ in bm:
+                if k not in required:
+                    doc = [(kk, vv) for kk, vv in bm if kk != k] + [(name, "literal-value")]
+                    out.append((decode_line(dfam, False, render(obj(doc), rng, plain=True)), "source-literal/member-instead-of-one"))
+        for k in str_members:
+            for val in (w, w.upper(), " " + w, w + " ", "x" + w + "y", w + " " + w):
+                doc = [(kk, (val if kk == k else vv)) for kk, vv in bm]
+                out.append((decode_line(dfam, False, render(obj(doc), rng, plain=True)), "source-literal/string-value"))
+    for n in S.sizes(limit=None, lo=0):
+        for k in num_members:
+            doc = [(kk, (n if kk == k else vv)) for kk, vv in bm]
+            out.append((decode_line(dfam, False, render(obj(doc), rng, plain=True)), "source-literal/numeric-value"))
+        if 1 <= n <= 300000:
+            for k in str_members:
+                if k in ("token_type", "error"):
+                    continue
+                for fill in ("a", "\u00e9"):
+                    val = (fill * n)[:n] if fill == "a" else fill * (n // 2) + ("a" if n % 2 else "")
+                    doc = [(kk, (val if kk == k else vv)) for kk, vv in bm]
+                    out.append((decode_line(dfam, False, render(obj(doc), rng, plain=True)), "source-literal/string-length"))
+            # the whole document exactly n bytes long (padding member), and an unknown member of n bytes / n elements
+            base = render(obj(bm + [("padding", "")]), rng, plain=True)
+            if n >= len(base):
+                out.append((decode_line(dfam, False, render(obj(bm + [("padding", "x" * (n - len(base)))]), rng, plain=True)), "source-literal/document-size"))
+            out.append((decode_line(dfam, False, render(obj(bm + [("padding", "x" * n)]), rng, plain=True)), "source-literal/member-size"))
+            if n <= 70000:
+                out.append((decode_line(dfam, False, render(obj(bm + [("padding", [1] * n)]), rng, plain=True)), "source-literal/array-size"))
+                if efam in ("token", "introspection"):
+                    doc = [(kk, vv) for kk, vv in bm if kk != "scope"] + [("scope", " ".join("s%d" % i for i in range(n)))]
+                    out.append((decode_line(dfam, False, render(obj(doc), rng, plain=True)), "source-literal/scope-count"))
     return out
